@@ -561,6 +561,22 @@ fn encoder_histograms(run: &mut Run, tier: Tier) {
             }
         }
     }
+    // shaped families over every support size: geometric, arithmetic, two-level, one dominant + tail, powers of two
+    for (max_log, max_symbol) in [(9u8, 35u8), (9, 52), (8, 31), (6, 11)] {
+        for k in 1..=max_symbol as usize + 1 {
+            for scale in [1usize, 3, 17, 1000] {
+                let geo: Vec<(u8, usize)> = (0..k).map(|s| (s as u8, (scale << (s % 14)).max(1))).collect();
+                let geo_rev: Vec<(u8, usize)> = (0..k).map(|s| (s as u8, (scale << ((k - 1 - s) % 14)).max(1))).collect();
+                let ari: Vec<(u8, usize)> = (0..k).map(|s| (s as u8, 1 + s * scale)).collect();
+                let two: Vec<(u8, usize)> = (0..k).map(|s| (s as u8, if s % 2 == 0 { scale } else { scale * 50 })).collect();
+                let dom: Vec<(u8, usize)> = (0..k).map(|s| (s as u8, if s == k - 1 { scale * 10_000 } else { 1 + s % 3 })).collect();
+                let gaps: Vec<(u8, usize)> = (0..k).map(|s| (s as u8, if s % 3 == 1 { 0 } else { 1 + (s * scale) % 7 })).collect();
+                for h in [geo, geo_rev, ari, two, dom, gaps] {
+                    wide.push((h, max_log, max_symbol));
+                }
+            }
+        }
+    }
     let accs = meter::par_fold(wide.len(), th, Acc::default, |a, i| check_encoder_histogram(a, &wide[i].0, wide[i].1, wide[i].2));
     merge(run, "C12", "encoder_histograms_wide_supports", accs, false);
 }
